@@ -469,7 +469,7 @@ func getTypeConverter(typ reflect.Type) (TypeConverter, error) {
 			return nil, err
 		}
 	case reflect.Map:
-		if typ.Key().Kind() == reflect.String {
+		if typ.Key() == reflect.TypeOf("") {
 			converter, err = newMapConverter(typ.Elem())
 			if err != nil {
 				return nil, err
